@@ -212,14 +212,14 @@ Proof.
     exists p', o, e, eo, ee. split; [exact E|]. split; [exact R'|]. discriminate.
 Qed.
 
-Lemma print_rep : forall rs is_out p L,
+Lemma print_rep : forall rs is_out empty p L,
   fds_ok rs -> Rep B L (tab p) ->
-  Rep B L (tab (fst (builtin_print v openable rs is_out p))) /\
+  Rep B L (tab (fst (builtin_print v openable rs is_out empty p))) /\
   (v_bfold v = true ->
-   snd (builtin_print v openable rs is_out p)
+   snd (builtin_print v openable rs is_out empty p)
    = Some (if is_out then fst (posix_sinks rs (o1, o2)) else snd (posix_sinks rs (o1, o2)))).
 Proof.
-  intros rs is_out p L OK R. unfold builtin_print.
+  intros rs is_out empty p L OK R. unfold builtin_print.
   destruct (std_fds_spec rs p L OK R) as (p' & o & e & eo & ee & E & R' & K).
   rewrite E.
   assert (G : forall mine other em eoth bfd ob cb,
@@ -228,19 +228,20 @@ Proof.
             let res := (let p0 := Pipeline.oclose other p' in
                         let '(p1, fd) := match mine with Some fd => (p0, Some fd) | None => p_dup bfd p0 end in
                         match fd with
-                        | Some fd => (p_close fd (p_ev (EWrite fd) p1), option_map fst (lookup (tab p1) fd))
+                        | Some fd => (p_close fd (if empty then p_ev (EWrite fd) p1 else p_ev (EWrite fd) (p_ev (EWrite fd) p1)),
+                                      option_map fst (lookup (tab p1) fd))
                         | None => (p1, None)
                         end) in
             Rep B L (tab (fst res)) /\ snd res = Some (objof mine em ob)).
   { intros mine other em eoth bfd ob cb HB RR. cbv zeta.
     pose proof (oclose_rep B (ol mine em) other eoth L p' RR) as R1.
     destruct mine as [fd|]; cbn [ol app objof] in *.
-    - cbn [fst snd]. split; [rc R1 (@nil (nat * entry)) fd em L|].
+    - cbn [fst snd]. split; [destruct empty; rc R1 (@nil (nat * entry)) fd em L|].
       rewrite (rep_lookup_in _ _ _ _ _ R1 (or_introl eq_refl)). reflexivity.
     - assert (L1 : lookup (tab (Pipeline.oclose other p')) bfd = Some (ob, cb)).
       { rewrite (rep_lookup _ _ _ _ R1); [exact HB | eapply base_not_key; eauto]. }
       destruct (p_dup_lookup _ _ _ _ _ _ R1 L1) as (q & d & ED & RD). rewrite ED. cbn [fst snd].
-      split; [rc RD (@nil (nat * entry)) d (ob, false) L|].
+      split; [destruct empty; rc RD (@nil (nat * entry)) d (ob, false) L|].
       rewrite (rep_lookup_in _ _ _ _ _ RD (or_introl eq_refl)). reflexivity. }
   destruct is_out.
   - destruct (G o e eo ee 1 o1 c1 HB1 R') as (G1 & G2). split; [exact G1|].
@@ -257,12 +258,12 @@ Lemma prints_rep : forall rs prints p L,
   Rep B L (tab (fst (builtin_prints v openable rs prints p))) /\
   (v_bfold v = true ->
    snd (builtin_prints v openable rs prints p)
-   = map (fun is_out : bool => Some (if is_out then fst (posix_sinks rs (o1, o2)) else snd (posix_sinks rs (o1, o2)))) prints).
+   = map (fun b : bool * bool => Some (if fst b then fst (posix_sinks rs (o1, o2)) else snd (posix_sinks rs (o1, o2)))) prints).
 Proof.
   intros rs. induction prints as [|b rest IH]; intros p L OK R; [split; [exact R | reflexivity]|].
   cbn [builtin_prints map].
-  destruct (print_rep rs b p L OK R) as (R1 & S1).
-  destruct (builtin_print v openable rs b p) as [p1 o]. cbn [fst snd] in R1, S1.
+  destruct (print_rep rs (fst b) (snd b) p L OK R) as (R1 & S1).
+  destruct (builtin_print v openable rs (fst b) (snd b) p) as [p1 o]. cbn [fst snd] in R1, S1.
   destruct (IH p1 L OK R1) as (R2 & S2). destruct (builtin_prints v openable rs rest p1) as [p2 os].
   cbn [fst snd] in *. split; [exact R2|]. intro VF. rewrite (S1 VF), (S2 VF). reflexivity.
 Qed.
@@ -296,18 +297,26 @@ Qed.
 
 End Builtin.
 
+Lemma runs_in_shell_true : forall pl st, p_stages pl = [st] -> s_kind st = KBuiltin ->
+  (p_capture pl = false \/ s_redirs st = []) -> runs_in_shell pl = true.
+Proof.
+  intros pl st ES EK H. unfold runs_in_shell, is_single_builtin. rewrite ES, EK. cbn [andb].
+  destruct H as [-> | ->]; [reflexivity | rewrite andb_false_r; reflexivity].
+Qed.
+
 (* the shell's table after a builtin that ran in the shell itself *)
 Theorem builtin_restored : forall v fail_at openable pl sh st o1 c1 o2 c2,
   v_bcap v = true ->
   p_stages pl = [st] -> s_kind st = KBuiltin ->
+  (p_capture pl = false \/ s_redirs st = []) ->      (* otherwise it is a one-stage pipeline (9dba15b) *)
   ((v_bfold v = true /\ v_bunop v = true) \/ (v_bfold v = false /\ lookahead_leak (s_redirs st) = false)) ->
   lookup (tab sh) 1 = Some (o1, c1) -> lookup (tab sh) 2 = Some (o2, c2) ->
   teq_tab (res_shell (run_pipeline v fail_at openable pl sh)) (tab sh).
 Proof.
-  intros v fail_at openable pl sh st o1 c1 o2 c2 VB ES EK NL H1 H2.
+  intros v fail_at openable pl sh st o1 c1 o2 c2 VB ES EK INS NL H1 H2.
   unfold run_pipeline. rewrite ES. cbn [length mk_pipes]. cbv zeta.
   replace (close_pairs [] sh) with sh by reflexivity.
-  assert (SB : is_single_builtin pl = true) by (unfold is_single_builtin; rewrite ES, EK; reflexivity).
+  assert (SB : runs_in_shell pl = true) by (eapply runs_in_shell_true; eauto).
   rewrite SB.
   pose proof (rep_init (tab sh)) as R0.
   assert (DONE : forall capo cape q, cap_ok (p_capture pl) capo cape ->
@@ -369,9 +378,11 @@ Proof.
 Qed.
 
 Lemma builtin_no_kids : forall v fail_at openable pl sh,
-  is_single_builtin pl = true -> res_kids (run_pipeline v fail_at openable pl sh) = [].
+  runs_in_shell pl = true -> res_kids (run_pipeline v fail_at openable pl sh) = [].
 Proof.
-  intros v fail_at openable pl sh SB. destruct (single_builtin_shape pl SB) as (st & ES & EK).
+  intros v fail_at openable pl sh SB.
+  assert (SB0 : is_single_builtin pl = true) by (unfold runs_in_shell in SB; apply andb_true_iff in SB; tauto).
+  destruct (single_builtin_shape pl SB0) as (st & ES & EK).
   unfold run_pipeline. rewrite ES. cbn [length mk_pipes]. cbv zeta. rewrite SB.
   destruct (mk_capture v fail_at (p_capture pl) 0 [] sh) as [[[q capo] cape] failed].
   destruct failed; [reflexivity|].
@@ -397,12 +408,12 @@ Theorem builtin_sinks_fold : forall v fail_at openable pl sh st o1 c1 o2 c2,
   let r := run_pipeline v fail_at openable pl sh in
   let sk := posix_sinks (s_redirs st) (o1, o2) in
   (res_error r = false ->
-   res_sinks r = map (fun is_out : bool => Some (if is_out then fst sk else snd sk)) (s_prints st)) /\
+   res_sinks r = map (fun b : bool * bool => Some (if fst b then fst sk else snd sk)) (s_prints st)) /\
   (res_error r = true <-> allopen openable (s_redirs st) = false).
 Proof.
   intros v fail_at openable pl sh st o1 c1 o2 c2 VF VU ES EK EC H1 H2. cbv zeta.
   unfold run_pipeline. rewrite ES. cbn [length mk_pipes]. cbv zeta.
-  assert (SB : is_single_builtin pl = true) by (unfold is_single_builtin; rewrite ES, EK; reflexivity).
+  assert (SB : runs_in_shell pl = true) by (eapply runs_in_shell_true; eauto).
   rewrite SB. unfold mk_capture. rewrite EC, VU.
   pose proof (preopen_rep openable (lookup (tab sh)) (s_redirs st) sh [] (rep_init (tab sh))) as R1.
   destruct (builtin_preopen openable (s_redirs st) sh) as [sh1 okb] eqn:EPRE. cbn [fst] in R1.
@@ -435,14 +446,14 @@ Proof.
 Qed.
 
 Theorem builtin_unopenable_error : forall v fail_at openable pl sh st,
-  v_bunop v = true -> p_stages pl = [st] -> s_kind st = KBuiltin ->
+  v_bunop v = true -> p_stages pl = [st] -> s_kind st = KBuiltin -> p_capture pl = false ->
   allopen openable (s_redirs st) = false ->
   let r := run_pipeline v fail_at openable pl sh in
   res_error r = true /\ res_kids r = [] /\ res_sinks r = [].
 Proof.
-  intros v fail_at openable pl sh st VU ES EK AO. cbv zeta.
+  intros v fail_at openable pl sh st VU ES EK EC AO. cbv zeta.
   unfold run_pipeline. rewrite ES. cbn [length mk_pipes]. cbv zeta.
-  assert (SB : is_single_builtin pl = true) by (unfold is_single_builtin; rewrite ES, EK; reflexivity).
+  assert (SB : runs_in_shell pl = true) by (eapply runs_in_shell_true; eauto).
   rewrite SB. rewrite VU.
   destruct (mk_capture v fail_at (p_capture pl) 0 [] sh) as [[[q capo] cape] failed].
   destruct failed; [cbn; auto|].
@@ -478,4 +489,13 @@ Proof.
       - unfold p_openfail. cbn [fst snd tr ev_opens]. auto. }
     unfold is_file_redir in *.
     destruct (r_fd r), (r_to r); try (apply FILE; reflexivity); apply IH.
+Qed.
+
+Lemma runs_in_shell_shape : forall pl, runs_in_shell pl = true ->
+  exists st, p_stages pl = [st] /\ s_kind st = KBuiltin /\ (p_capture pl = false \/ s_redirs st = []).
+Proof.
+  intros pl H. unfold runs_in_shell in H. apply andb_true_iff in H. destruct H as (SB & N).
+  destruct (single_builtin_shape pl SB) as (st & ES & EK). exists st. split; [exact ES|]. split; [exact EK|].
+  rewrite ES in N. apply negb_true_iff in N. apply andb_false_iff in N. destruct N as [N|N]; [left; exact N|].
+  right. destruct (s_redirs st); [reflexivity | discriminate].
 Qed.
